@@ -1,7 +1,8 @@
 (* C03 - property theorems only: statement, [exact lemma], Print Assumptions; Examples show the
    hypotheses are satisfiable (non-vacuity). *)
 From Coq Require Import Sorting.Permutation.
-From ASV.C03 Require Import Model Proofs.
+From ASV.C03 Require Import Model Proofs ProofsRing ProofsMerge ProofsMergeChains.
+From ASV.C04 Require Proofs.
 
 (* On a linear record, for every cutoff and every set of anchoring genes (nested, overlapping,
    in any input order): the groups formed by the sweep are exactly the maximal chains of genes
@@ -180,3 +181,263 @@ Example C03_origin_spanning_chain :
   rule_cores 20000 true (gs 16500) r [0; 1; 2; 5]
   = Ok [[mkPart 19500 20000 1; mkPart 0 1300 1]; [mkPart 10000 10300 1]; [mkPart 16500 17500 (-1)]].
 Proof. split; vm_compute; reflexivity. Qed.
+
+(* ====================================================================================
+   Second deepening pass: the ring
+   ==================================================================================== *)
+
+(* the neighbourhood on a circular record.  For every record length N, every neighbourhood nb >= 0 and every core
+   that is a span on the ring - one part inside the record (any strand) or the forward span [s,N)+[0,e) over the
+   origin (what connect_locations returns) - _extend_area_location succeeds; the distance applied is
+   d = min(nb, (N - len) // 2 + 1); unless the force_cross_origin midpoint split happens the result is a span (one
+   part, or two parts the second of which starts at 0 and ends no later than the first starts), it contains every
+   base of the core, and its bases are exactly those of the arc that starts d before the core's start and ends d
+   after its end, wrapped round the origin on either side.  In the split case (force_cross_origin, core over the
+   origin, the two extensions meet: s - e < 2d) every base of the ring is within d of the core but the result is
+   [mid,N)+[0,mid-1), mid = e + (s-e)//2: the whole ring EXCEPT base mid-1 (finding C03-K6 neighbourhood_split_short);
+   it still contains the core when the core leaves at least two bases free. *)
+Theorem C03_neighbourhood_ring : forall N l nb force, 0 < N -> 0 <= nb -> ring_core N l ->
+  let d := nb_dist N l nb in
+  exists r, extend_area l nb N true force = Ok r /\
+    (~ split_case N l nb force ->
+       C04.Proofs.is_span N r /\
+       (forall x, C04.Proofs.base_of l x -> C04.Proofs.base_of r x) /\
+       (forall x, 0 <= x < N -> (C04.Proofs.base_of r x <-> in_extent N (core_lo l) (core_hi N l) d x))) /\
+    (split_case N l nb force ->
+       let mid := split_mid (core_lo l) (core_hi N l - N) in
+       r = span2 N mid (mid - 1) /\
+       (forall x, 0 <= x < N -> in_extent N (core_lo l) (core_hi N l) d x) /\
+       (forall x, 0 <= x < N -> (C04.Proofs.base_of r x <-> x <> mid - 1)) /\
+       (2 <= core_lo l - (core_hi N l - N) ->
+          C04.Proofs.is_span N r /\ forall x, C04.Proofs.base_of l x -> C04.Proofs.base_of r x)).
+Proof. exact neighbourhood_ring. Qed.
+Print Assumptions C03_neighbourhood_ring.
+
+(* the property's "core extended by the neighbourhood on both sides, wrapped around the origin" is false of the code
+   in the split case: a base within the neighbourhood of the core is not in the extent (finding C03-K6) *)
+Theorem C03_neighbourhood_ring_split_refuted : exists N l nb r x,
+  ring_core N l /\ extend_area l nb N true true = Ok r /\ 0 <= x < N /\
+  in_extent N (core_lo l) (core_hi N l) (nb_dist N l nb) x /\ ~ C04.Proofs.base_of r x.
+Proof.
+  exists 8000, (span2 8000 7000 900), 10000, (span2 8000 3950 3949), 3949.
+  split; [right; exists 7000, 900; split; [reflexivity|lia]|].
+  split; [vm_compute; reflexivity|]. split; [lia|]. split.
+  - exists 0. split; [auto|vm_compute; split; [intro H; discriminate H|reflexivity]].
+  - intros [q [[<-|[<-|[]]] Hq]]; cbn in Hq; lia.
+Qed.
+Print Assumptions C03_neighbourhood_ring_split_refuted.
+
+(* the closed forms behind it: a one-part core / the span over the origin *)
+Theorem C03_extent_single : forall N p nb force, 0 < N -> C04.Proofs.wfp N p -> 0 <= nb ->
+  extend_area [p] nb N true force = Ok (ext_single N (ps p) (pe p) (Z.min nb (cap N (pe p - ps p)))).
+Proof. exact extend_area_single. Qed.
+Print Assumptions C03_extent_single.
+
+Theorem C03_extent_span : forall N s e nb force, 0 < e -> e <= s -> s < N -> 0 <= nb ->
+  extend_area (span2 N s e) nb N true force = Ok (ext_span2 N s e (Z.min nb (cap N (N - s + e))) force).
+Proof. exact extend_area_span2. Qed.
+Print Assumptions C03_extent_span.
+
+(* C03_chain_ring, part 1 (the sweep).  Circular record, the one-part anchoring genes of a rule in sorted order (no
+   anchoring gene spans the origin), guard far_ok: no gene is within the cutoff, across the origin, of the core it
+   is compared with (decidable, evaluated along the sweep; it excludes the joins the loop itself makes through the
+   origin, among them class C03-K5).  Then the loop of find_protoclusters - _extend_area_location by the cutoff with
+   its cap, overlaps_with, connect_locations on the ring - succeeds and returns one single-part core per group of
+   the interval sweep (C03_chain_linear), its tight hull; every anchor is in exactly one group; groups are
+   connected through pairs closer than the cutoff; and two anchors of different groups are never closer than the
+   cutoff on the ring EXCEPT through the origin between the first and the last group, and then exactly when these
+   two groups' hulls are closer than the cutoff through the origin - the one pair left to merge_over_origin. *)
+Theorem C03_chain_ring_sweep_partial : forall N c l, 0 < N -> 0 <= c -> Forall (C04.Proofs.wfp N) l ->
+  sortedS (map itv_of l) -> far_ok N c [] (map itv_of l) = true ->
+  let its := map itv_of l in
+  let gs := sweep N c its in
+  exists cores,
+    fold_left (sweep_step N true c) (map (fun p => [p]) l) (Ok []) = Ok cores /\
+    Forall2 core_rel cores gs /\
+    Permutation its (flatten gs) /\
+    (forall g, In g gs ->
+       members g <> [] /\
+       (forall m, In m (members g) -> fst (core_of g) <= s m /\ e m <= snd (core_of g)) /\
+       (exists m, In m (members g) /\ s m = fst (core_of g)) /\
+       (exists m, In m (members g) /\ e m = snd (core_of g)) /\
+       (forall a b, In a (members g) -> In b (members g) -> conn c (members g) a b)) /\
+    (forall g1 g2 a b, In g1 gs -> In g2 gs -> g1 <> g2 -> In a (members g1) -> In b (members g2) ->
+       ring_near N c a b ->
+       ((forall g', ~ older g' g1 gs) /\ (forall g', ~ older g2 g' gs) /\
+        fst (core_of g1) + N - snd (core_of g2) < c) \/
+       ((forall g', ~ older g' g2 gs) /\ (forall g', ~ older g1 g' gs) /\
+        fst (core_of g2) + N - snd (core_of g1) < c)).
+Proof. exact chain_ring_sweep. Qed.
+Print Assumptions C03_chain_ring_sweep_partial.
+
+(* one step of that loop in closed form: previous core [cs,he), next gene g in sorted order, g not within the cutoff
+   of the core across the origin: joined (linear hull) iff g starts before core end + cutoff (strict <) *)
+Theorem C03_chain_ring_step : forall N c cs he st g rest,
+  0 < N -> 0 <= c -> C04.Proofs.wfp N (mkPart cs he st) -> C04.Proofs.wfp N g -> cs <= ps g -> pe g + c <= cs + N ->
+  sweep_step N true c (Ok ([mkPart cs he st] :: rest)) [g] =
+    if ps g <? he + c then Ok ([mkPart cs (Z.max he (pe g)) (join_strand st (pst g))] :: rest)
+    else Ok ([g] :: [mkPart cs he st] :: rest).
+Proof. exact sweep_step_ring. Qed.
+Print Assumptions C03_chain_ring_step.
+
+(* hulls closer than the cutoff through the origin are witnessed by two anchors (so the first and last group then
+   belong to one component of the ring proximity graph) *)
+Theorem C03_chain_ring_wrap_witness : forall N c lo gs, inv N c lo gs -> forall g1 g2, In g1 gs -> In g2 gs ->
+  fst (core_of g1) + N - snd (core_of g2) < c ->
+  exists a b, In a (members g1) /\ In b (members g2) /\ s a + N - e b < c.
+Proof. exact wrap_near_members. Qed.
+Print Assumptions C03_chain_ring_wrap_witness.
+
+(* a rule without EXTENDERS and SUPERIORS: apply_extenders keeps rule and core of every protocluster and
+   remove_redundant_protoclusters drops none, so between the sweep and the result only merge_over_origin acts *)
+Theorem C03_no_extenders_core : forall N circular gs hs rules p q,
+  r_ext (nth_rule rules (p_rule p)) = None ->
+  extend_proto N circular gs hs rules p = Ok q -> p_rule q = p_rule p /\ p_core q = p_core p.
+Proof. exact extend_proto_no_ext. Qed.
+Print Assumptions C03_no_extenders_core.
+
+Theorem C03_no_superiors_kept : forall gs rules all p b,
+  r_sup (nth_rule rules (p_rule p)) = [] -> is_redundant gs rules all p = Ok b -> b = false.
+Proof. exact is_redundant_no_sup. Qed.
+Print Assumptions C03_no_superiors_kept.
+
+(* ---------- merge_over_origin ---------- *)
+(* never merges clusters of different rules: the result is the concatenation, rule by rule in order of first
+   occurrence, of merge_group applied to that rule's clusters; every result carries the rule of an input cluster, the
+   results of rule ri are exactly merge_group of ri's clusters, a rule that does not occur gets nothing *)
+Theorem C03_merge_rules_kept : forall N circular rules key clusters res0,
+  merge_over_origin_protos N circular rules key clusters = Ok res0 ->
+  exists pairs groups,
+    mapM (with_ext N circular rules) clusters = Ok pairs /\ map fst pairs = clusters /\
+    mapM (fun ri => merge_group N circular rules key (of_rule ri pairs)) (product_order clusters []) = Ok groups /\
+    res0 = concat groups /\
+    (forall q, In q res0 -> exists p, In p clusters /\ p_rule q = p_rule p) /\
+    (forall ri, In ri (map p_rule clusters) ->
+       merge_group N circular rules key (of_rule ri pairs) = Ok (filter (fun q => p_rule q =? ri) res0)) /\
+    (forall ri, ~ In ri (map p_rule clusters) -> filter (fun q => p_rule q =? ri) res0 = []).
+Proof. exact merge_rules_kept. Qed.
+Print Assumptions C03_merge_rules_kept.
+
+Theorem C03_merge_group_rule : forall N circular rules key ri group res0,
+  all_rule ri group -> merge_group N circular rules key group = Ok res0 -> Forall (fun q => p_rule q = ri) res0.
+Proof. exact merge_group_rule. Qed.
+Print Assumptions C03_merge_group_rule.
+
+(* the loop is one left-to-right pass over the key-sorted group (a permutation of it, ascending keys): it invents no
+   cluster and keeps at least one *)
+Theorem C03_merge_sorted : forall (key : proto * loc -> Z) group,
+  Permutation group (sort_by (fun a b => key a <? key b) group) /\
+  sorted_by_key key (sort_by (fun a b => key a <? key b) group).
+Proof. exact merge_sorted_perm. Qed.
+Print Assumptions C03_merge_sorted.
+
+Theorem C03_merge_group_length : forall N circular rules key group res0,
+  merge_group N circular rules key group = Ok res0 -> group <> [] -> (1 <= length res0 <= length group)%nat.
+Proof. exact merge_group_length. Qed.
+Print Assumptions C03_merge_group_length.
+
+(* clusters that do not overlap the cutoff-extended core of their predecessor in the sorted order are never
+   changed: the result is the sorted group itself, a permutation of the input, every rule, core and neighbourhood
+   as it was *)
+Theorem C03_merge_unchanged : forall N circular rules key group,
+  let sorted := sort_by (fun a b => key a <? key b) group in
+  (forall l1 prev prev_loc cl loc0 l2, sorted = l1 ++ (prev, prev_loc) :: (cl, loc0) :: l2 ->
+     overlap (p_core cl) prev_loc = false) ->
+  merge_group N circular rules key group = Ok (map fst sorted) /\
+  Permutation (map fst group) (map fst sorted).
+Proof. exact merge_group_unchanged. Qed.
+Print Assumptions C03_merge_unchanged.
+
+(* ... and "farther apart than the cutoff" implies exactly that (circular record, one-part cores): a core at least
+   the cutoff away from the previous core both on the line and through the origin does not overlap its cutoff
+   extension, the step appends the cluster unchanged *)
+Theorem C03_merge_far_apart : forall N rules prev rest cl p q ext,
+  p_core prev = [p] -> p_core (fst cl) = [q] -> C04.Proofs.wfp N p -> C04.Proofs.wfp N q ->
+  let c := r_cut (nth_rule rules (p_rule prev)) in
+  0 <= c -> pe p - ps p + 2 * c < N ->
+  extend_location (p_core prev) c N true = Ok ext ->
+  (pe p <= ps q /\ c <= ps q - pe p /\ c <= ps p + N - pe q) \/
+  (pe q <= ps p /\ c <= ps p - pe q /\ c <= ps q + N - pe p) ->
+  merge_step N true rules (Ok ((prev, ext) :: rest)) cl = Ok (cl :: (prev, ext) :: rest).
+Proof. exact merge_step_far. Qed.
+Print Assumptions C03_merge_far_apart.
+
+(* C03_chain_ring, part 2 (merge_over_origin on the chains the sweep returns).  Circular record, k >= 2 protoclusters
+   of one rule whose cores are one-part, listed in ascending order and separated on the line by at least the cutoff
+   (pe q_j + c <= ps q_(j+1)), each with len + 2c < N.
+   (a) first and last chain at least the cutoff apart through the origin: merge_over_origin returns every
+       protocluster unchanged (total: it does not raise) ... *)
+Theorem C03_chain_ring_merge_far : forall N rules ri c,
+  r_cut (nth_rule rules ri) = c -> 0 <= c ->
+  forall protos qs q1 mid qk pairs,
+  qs = q1 :: mid ++ [qk] ->
+  map p_core protos = map (fun q => [q]) qs ->
+  Forall (fun P => p_rule P = ri) protos ->
+  Forall (good N c) qs -> separated c qs ->
+  mapM (with_ext N true rules) protos = Ok pairs ->
+  c <= ps q1 + N - pe qk ->
+  merge_group N true rules key_ext_start pairs
+    = Ok (map fst (sort_by (fun a b => key_ext_start a <? key_ext_start b) pairs)) /\
+  Permutation protos (map fst (sort_by (fun a b => key_ext_start a <? key_ext_start b) pairs)).
+Proof. exact merge_chains_far. Qed.
+Print Assumptions C03_chain_ring_merge_far.
+
+(* (b) first and last chain closer than the cutoff through the origin, and through the origin is the short way
+       (guard N/2 < ps q_k - pe q_1: the decidable predicate that excludes class C03-K5 long_way_round): whenever
+       merge_over_origin returns, it has joined exactly the first and the last chain into the span [ps q_k, N) +
+       [0, pe q_1) over the origin, of the same rule, and returns every chain in between unchanged *)
+Theorem C03_chain_ring_merge_near_partial : forall N rules ri c,
+  r_cut (nth_rule rules ri) = c -> 0 < N -> 0 <= c ->
+  forall protos P1 pmid Pk qs q1 mid qk pairs res0,
+  protos = P1 :: pmid ++ [Pk] -> qs = q1 :: mid ++ [qk] ->
+  map p_core protos = map (fun q => [q]) qs ->
+  Forall (fun P => p_rule P = ri) protos ->
+  Forall (good N c) qs -> separated c qs ->
+  mapM (with_ext N true rules) protos = Ok pairs ->
+  ps q1 + N - pe qk < c -> N / 2 < ps qk - pe q1 ->
+  merge_group N true rules key_ext_start pairs = Ok res0 ->
+  exists m, res0 = m :: pmid /\ p_rule m = ri /\ p_core m = span2 N (ps qk) (pe q1) /\
+    map p_core res0 = span2 N (ps qk) (pe q1) :: map (fun q => [q]) mid /\
+    Forall (fun P => p_rule P = ri) res0.
+Proof. exact merge_chains_near. Qed.
+Print Assumptions C03_chain_ring_merge_near_partial.
+
+(* a rule with a single protocluster: returned as it is *)
+Theorem C03_merge_single : forall N rules P pairs,
+  mapM (with_ext N true rules) [P] = Ok pairs -> merge_group N true rules key_ext_start pairs = Ok [P].
+Proof. exact merge_chains_single. Qed.
+Print Assumptions C03_merge_single.
+
+(* non-vacuity of (a) and (b): N = 1000, cutoff 100, three chains, mixed strands *)
+Example C03_chain_ring_merge_examples :
+  let rules := [mkRule 100 0 (C01.Model.Single false 0) None []] in
+  let mk s e st := (0, [mkPart s e st], [mkPart s e 1]) : proto in
+  let withx l := match mapM (with_ext 1000 true rules) l with Ok p => p | Err _ => [] end in
+  separated 100 [mkPart 10 50 1; mkPart 400 450 (-1); mkPart 900 960 1] /\
+  Forall (good 1000 100) [mkPart 10 50 1; mkPart 400 450 (-1); mkPart 900 960 1] /\
+  map p_core match merge_group 1000 true rules key_ext_start (withx [mk 10 50 1; mk 400 450 (-1); mk 900 960 1])
+             with Ok r => r | Err _ => [] end
+    = [span2 1000 900 50; [mkPart 400 450 (-1)]] /\
+  merge_group 1000 true rules key_ext_start (withx [mk 110 150 1; mk 400 450 (-1); mk 800 860 1])
+    = Ok [mk 110 150 1; mk 400 450 (-1); mk 800 860 1].
+Proof.
+  cbn zeta. split; [cbn; lia|]. split; [repeat constructor; cbn; lia|]. split; vm_compute; reflexivity.
+Qed.
+
+(* non-vacuity of the ring theorems: a record of 20 kb, cutoff 2 kb: the sweep keeps three chains (far_ok holds although
+   the last chain is 1.8 kb from the first through the origin: it is compared with the second), and the neighbourhood
+   of a core over the origin *)
+Example C03_ring_examples :
+  let l := [mkPart 1000 1300 1; mkPart 10000 10300 (-1); mkPart 17000 18200 1] in
+  Forall (C04.Proofs.wfp 20000) l /\ sortedS (map itv_of l) /\ far_ok 20000 2000 [] (map itv_of l) = true /\
+  fold_left (sweep_step 20000 true 2000) (map (fun p => [p]) l) (Ok [])
+    = Ok [[mkPart 17000 18200 1]; [mkPart 10000 10300 (-1)]; [mkPart 1000 1300 1]] /\
+  ring_core 20000 (span2 20000 17000 1300) /\ ~ split_case 20000 (span2 20000 17000 1300) 3000 true /\
+  extend_area (span2 20000 17000 1300) 3000 20000 true true = Ok (span2 20000 14000 4300).
+Proof.
+  cbn zeta. split; [repeat constructor; cbn; lia|]. split; [cbn; repeat split; repeat (constructor; try (cbn; lia))|].
+  split; [vm_compute; reflexivity|]. split; [vm_compute; reflexivity|].
+  split; [right; exists 17000, 1300; split; [reflexivity|lia]|].
+  split; [|vm_compute; reflexivity].
+  intros [_ [s0 [e0 [Heq Hlt]]]]. unfold span2 in Heq. inversion Heq; subst s0 e0. vm_compute in Hlt. discriminate Hlt.
+Qed.
